@@ -58,7 +58,8 @@ chk("C05",
     "that never runs MyGrad: overwritten elements simply no longer occur in the twin's term; for mutated tensors fresh cut variables "
     "are written in place into the twin right after the last mutation of their memory owner. Operation sweep: every C02 operation body, "
     "one operand (or the intermediate `+operand` it consumes) updated in place AFTER the forward call, then backward(): all remaining "
-    "gradients must be those of the forward pass as computed (recurrent layer: first 3 paths of T=1; T=2 thorough).",
+    "gradients must be those of the forward pass as computed (recurrent layer: first 3 paths of T=1; T=2 thorough); likewise every "
+    "integer/boolean auxiliary array of those bodies (indices, masks, conditions, labels) passed as a Tensor and assigned to afterwards.",
     "Trusted: reference differentiator; version rule 'a tensor's current value is the one after the last in-place statement whose "
     "target shares its memory (or .shape assignment to its memory owner)', which is the reading under which C06 (view grad = view of "
     "base grad) and C05 are jointly satisfiable.",
@@ -192,7 +193,10 @@ chk("C08",
     "out= target, out= views of one buffer, matmul, tensor sharing a user array, read-only view of a writeable owner, writeable view of a read-only "
     "owner, array over a foreign buffer, in-place updates through a dropped view / out= temporaries / the tensor itself), one backward / clear_graph / del / failing op at every position, then every "
     "release order by del or clear_graph; after every statement and at quiescence (cyclic GC off) flags are compared with a 3-valued "
-    "specification from a reference model of graph liveness that never looks at the lock tables; lock tables must be empty at the end.",
+    "specification from a reference model of graph liveness that never looks at the lock tables; lock tables must be empty at the end. "
+    "(c) auxiliary arrays (index arrays, where= masks, conditions, label arrays) of every C02 operation body, written to by the caller after "
+    "the forward call inside try/except ValueError: the guard refuses the write, or z3 shows for all operand values that the gradients are "
+    "those of the forward pass as computed (open known finding: they are neither locked nor copied).",
     "(a) is per fixed universe; the induction over histories is on paper and a step counterexample is never reported without a "
     "reproducing history of (b). (b) is enumeration, not a solver verdict. Arrays whose .base is neither an ndarray nor a buffer exporter "
     "(as_strided) are outside.",
